@@ -330,10 +330,13 @@ func TestC05(t *testing.T) {
 			if c.Shard != 0 {
 				return
 			}
-			c.stepOverride = 40000000
+			c.stepOverride = 400000000
 			defer func() { c.stepOverride = 0 }()
 			for _, n := range c.scaleSizes([]int{1000, 4096, 10000}, []int{65536, 100000, 300000}) {
 				c.c05Program(s, "scale", scaleLoops(n), true)
+			}
+			for _, n := range c.scaleSizes([]int{1000, 100000, 1000000}, []int{5000000}) {
+				c.c05Program(s, "scale", scaleContinue(n), true)
 			}
 		})
 		c.Sub("stray-signals", func(s *Sub) {
